@@ -124,7 +124,7 @@ GenPipe == LET h == P[H] IN
        \/ /\ CanExpand(h, 1)          \* one general stage + one silent stage S s
           /\ P' = [P EXCEPT ![H] = IF pos = 1 THEN N("pipe", L+1, 0, 0, 0, s) ELSE N("pipe", 0, L+1, 0, s, 0)]
                     \o <<Hole(h.d-1, 0, h.fd, 1, 0)>>
-       \/ /\ h.d >= 0 /\ pos = 1 /\ L <= MaxNodes    \* two silent stages (leaf-like)
+       \/ /\ h.foc = 1 /\ pos = 1 /\ L <= MaxNodes    \* two silent stages (leaf-like, focus holes only)
           /\ \E s2 \in {0, 1} : P' = [P EXCEPT ![H] = N("pipe", 0, 0, 0, s, s2)]
 
 Init == P = <<Hole(Depth, 0, 0, 1, 0)>>
